@@ -1295,6 +1295,12 @@ def module_code_objects(mod):
 
     for v in list(vars(mod).values()):
         visit(v)
+    # whatever wraps a function in a way the walk above does not know (functools.cached_property / partialmethod /
+    # singledispatchmethod keep it in `.func`, other descriptors elsewhere): every live function object defined in the file
+    import gc
+    for o in gc.get_objects():
+        if isinstance(o, types.FunctionType) and getattr(o.__code__, 'co_filename', None) == fn:
+            walk(o.__code__)
     return cos
 
 
